@@ -155,7 +155,23 @@ fn one_call(name: &str, args: &[MVal], w: &World, gnodes: usize, functions: &Fun
                 }
             };
             if render_involved(name, args) {
-                out.feat("skipped_unspecified_set_order");
+                // the order in which a set's elements are rendered is not laid down, how each one is
+                // rendered is: whatever the order, the text consists of the same characters
+                let letters = |v: &MVal| -> Option<Vec<char>> {
+                    match v {
+                        MVal::Str(s) => {
+                            let mut cs: Vec<char> = s.chars().collect();
+                            cs.sort();
+                            Some(cs)
+                        }
+                        _ => None,
+                    }
+                };
+                if letters(&observed) != letters(mv) || letters(mv).is_none() {
+                    out.violation(&format!("C13:wrong-value:{}", name), &format!("({} ...) returned {:?}; whatever the order of set elements, the documented result has the characters of {:?}", name, observed, mv), case());
+                    return None;
+                }
+                out.feat("set_rendering_checked_modulo_element_order");
                 return Some(h);
             }
             if &observed != mv {
